@@ -25,7 +25,9 @@ Inductive cval :=
 | CInt (i : Z)        (* -2^63 <= i < 2^63 *)
 | CBig (n : Z)        (* 2^63 <= n < 2^64: unsigned beyond int64 *)
 | CText (s : list Z)
-| CBool (b : bool).
+| CBool (b : bool)
+| COther.             (* any other well-formed item: null, float, list, nested map
+                         (decoding only; every accessor treats it as "wrong kind") *)
 
 Definition entry : Type := (list Z * cval).
 
@@ -47,6 +49,7 @@ Definition enc_val (v : cval) : list Z :=
   | CBig n => head 0 n
   | CText s => head 3 (blen s) ++ s
   | CBool b => [if b then 245 else 244]
+  | COther => []
   end.
 
 Definition enc_entry (e : entry) : list Z :=
@@ -103,13 +106,89 @@ Fixpoint bytes_eqb (a b : list Z) : bool :=
   | _, _ => false
   end.
 
+(** floats are accepted unless NaN or infinite (exponent bits all ones) *)
+Definition float_ok (width : Z) (p : list Z) : bool :=
+  match p with
+  | b0 :: b1 :: _ =>
+      if width =? 2 then negb ((b0 / 4) mod 32 =? 31)
+      else if width =? 4 then negb ((b0 mod 128) * 2 + b1 / 128 =? 255)
+      else negb ((b0 mod 128) * 16 + b1 / 16 =? 2047)
+  | _ => false
+  end.
+
+(** one data item of any kind: a scalar of the subset, or — with explicit fuel for
+    the nesting — null/undefined, a finite float, a list, a nested map (text keys,
+    no duplicates).  Tags (links) are not modelled and rejected. *)
+Fixpoint dec_item (fuel : nat) (bs : list Z) : option (cval * list Z) :=
+  match fuel with
+  | O => None
+  | S f =>
+      match dec_val bs with
+      | Some x => Some x
+      | None =>
+          match bs with
+          | [] => None
+          | b :: r =>
+              if (b =? 246) || (b =? 247) then Some (COther, r)
+              else if (b =? 249) || (b =? 250) || (b =? 251) then
+                let w := if b =? 249 then 2 else if b =? 250 then 4 else 8 in
+                match split_at w r with
+                | Some (p, r') => if float_ok w p then Some (COther, r') else None
+                | None => None
+                end
+              else
+                match dec_head bs with
+                | Some (m, n, r') =>
+                    if (m =? 4) && (n <=? blen r') then
+                      match (fix items (cnt : nat) (l : list Z) : option (list Z) :=
+                               match cnt with
+                               | O => Some l
+                               | S c => match dec_item f l with
+                                        | Some (_, l') => items c l'
+                                        | None => None
+                                        end
+                               end) (Z.to_nat n) r' with
+                      | Some rest => Some (COther, rest)
+                      | None => None
+                      end
+                    else if (m =? 5) && (n <=? blen r') then
+                      match (fix pairs (cnt : nat) (seen : list (list Z)) (l : list Z) : option (list Z) :=
+                               match cnt with
+                               | O => Some l
+                               | S c =>
+                                   match dec_head l with
+                                   | Some (km, kn, l1) =>
+                                       if km =? 3 then
+                                         match split_at kn l1 with
+                                         | Some (k, l2) =>
+                                             if existsb (bytes_eqb k) seen then None else
+                                             match dec_item f l2 with
+                                             | Some (_, l3) => pairs c (k :: seen) l3
+                                             | None => None
+                                             end
+                                         | None => None
+                                         end
+                                       else None
+                                   | None => None
+                                   end
+                               end) (Z.to_nat n) [] r' with
+                      | Some rest => Some (COther, rest)
+                      | None => None
+                      end
+                    else None
+                | None => None
+                end
+          end
+      end
+  end.
+
 Definition dec_entry (bs : list Z) : option (entry * list Z) :=
   match dec_head bs with
   | Some (m, n, r) =>
       if m =? 3 then
         match split_at n r with
         | Some (k, r') =>
-            match dec_val r' with
+            match dec_item (S (length r')) r' with
             | Some (v, r'') => Some ((k, v), r'')
             | None => None
             end
@@ -164,6 +243,7 @@ Definition wf_val (v : cval) : Prop :=
   | CBig n => two63 <= n < two64
   | CText s => blen s < two64
   | CBool _ => True
+  | COther => False
   end.
 Definition wf_entry (e : entry) : Prop := blen (fst e) < two64 /\ wf_val (snd e).
 
@@ -270,7 +350,7 @@ Proof.
     destruct (head_first m n ltac:(lia) ltac:(lia)) as [b [t [Hh Hb]]].
     rewrite Hh. cbn [app]. unfold dec_val.
     destruct (Z.eqb_spec b 244); [lia|]. destruct (Z.eqb_spec b 245); [lia|]. reflexivity. }
-  destruct v as [b|i|n|s|b]; cbn [enc_val wf_val] in *; unfold two63, two64 in Hv.
+  destruct v as [b|i|n|s|b|]; cbn [enc_val wf_val] in *; unfold two63, two64 in Hv.
   - rewrite <- app_assoc. pose proof (blen_nonneg b).
     rewrite Hgen by lia. rewrite dec_head_head by (unfold two64; lia). cbn.
     rewrite split_at_app. reflexivity.
@@ -286,7 +366,11 @@ Proof.
     rewrite Hgen by lia. rewrite dec_head_head by (unfold two64; lia). cbn.
     rewrite split_at_app. reflexivity.
   - destruct b; reflexivity.
+  - destruct Hv.
 Qed.
+
+Lemma dec_item_scalar : forall f bs x, dec_val bs = Some x -> dec_item (S f) bs = Some x.
+Proof. intros f bs x H. cbn [dec_item]. rewrite H. reflexivity. Qed.
 
 Lemma dec_entry_enc_entry : forall e r, wf_entry e ->
   dec_entry (enc_entry e ++ r) = Some (e, r).
@@ -294,7 +378,8 @@ Proof.
   intros [k v] r [Hk Hv]. cbn [fst snd] in *. unfold enc_entry, dec_entry. cbn [fst snd].
   rewrite <- !app_assoc. pose proof (blen_nonneg k).
   rewrite dec_head_head by lia. cbn.
-  rewrite split_at_app. rewrite dec_val_enc_val by exact Hv. reflexivity.
+  rewrite split_at_app.
+  cbn [dec_item]. rewrite dec_val_enc_val by exact Hv. reflexivity.
 Qed.
 
 Lemma existsb_not_in : forall k seen, ~ In k seen -> existsb (bytes_eqb k) seen = false.
@@ -321,30 +406,26 @@ Proof.
     + apply (Hseen k0); [right; exact Hk0 | exact Hin].
 Qed.
 
-Lemma enc_entry_len2 : forall e, 2 <= blen (enc_entry e).
+Lemma head_len1 : forall m n, 1 <= blen (head m n).
 Proof.
-  intros [k v]. unfold enc_entry. cbn [fst snd]. rewrite !blen_app.
-  pose proof (blen_nonneg k).
-  assert (H1 : forall m n, 1 <= blen (head m n)).
-  { intros m n. unfold head.
-    destruct (n <? 24); [cbn; lia|]. destruct (n <? 256); [cbn; lia|].
-    destruct (n <? 65536); [rewrite blen_cons; pose proof (blen_nonneg (be 2 n)); lia|].
-    destruct (n <? 4294967296); rewrite blen_cons;
-      [pose proof (blen_nonneg (be 4 n)) | pose proof (blen_nonneg (be 8 n))]; lia. }
-  assert (H2 : 1 <= blen (enc_val v)).
-  { destruct v as [b|i|n|s|b]; cbn [enc_val].
-    - rewrite blen_app. pose proof (H1 2 (blen b)). pose proof (blen_nonneg b). lia.
-    - destruct (0 <=? i); apply H1.
-    - apply H1.
-    - rewrite blen_app. pose proof (H1 3 (blen s)). pose proof (blen_nonneg s). lia.
-    - cbn. lia. }
-  pose proof (H1 3 (blen k)). lia.
+  intros m n. unfold head.
+  destruct (n <? 24); [cbn; lia|]. destruct (n <? 256); [cbn; lia|].
+  destruct (n <? 65536); [rewrite blen_cons; pose proof (blen_nonneg (be 2 n)); lia|].
+  destruct (n <? 4294967296); rewrite blen_cons;
+    [pose proof (blen_nonneg (be 4 n)) | pose proof (blen_nonneg (be 8 n))]; lia.
 Qed.
 
-Lemma flat_map_enc_len : forall l, 2 * blen l <= blen (flat_map enc_entry l).
+Lemma enc_entry_len1 : forall e, 1 <= blen (enc_entry e).
+Proof.
+  intros [k v]. unfold enc_entry. cbn [fst snd]. rewrite !blen_app.
+  pose proof (blen_nonneg k). pose proof (blen_nonneg (enc_val v)).
+  pose proof (head_len1 3 (blen k)). lia.
+Qed.
+
+Lemma flat_map_enc_len : forall l, blen l <= blen (flat_map enc_entry l).
 Proof.
   induction l as [|e l IH]; cbn [flat_map]; [cbn; lia|].
-  rewrite blen_app, blen_cons. pose proof (enc_entry_len2 e). lia.
+  rewrite blen_app, blen_cons. pose proof (enc_entry_len1 e). lia.
 Qed.
 
 (** decoding an encoded map gives the map back, in the order it was written *)
